@@ -183,6 +183,22 @@ func checkC02(c *Check) {
 			}
 			for _, role := range []string{"ReadTL1", "ReadTL1Boxed", "ReadResultTL1"} {
 				if r := roles[role]; r != nil {
+					// every word taken from the input is stored or constrained; every basictl call is a known primitive
+					rw, _ := g.wire(r, tl1ReadCfg, "r")
+					findPrims(rw, func(p *WPrim) {
+						if p.Operand == "_" {
+							c.Ob("tl1-reader-discards-word", name+"."+role, false, posStr(g.co.Fset, p.Pos), "a "+p.Kind+" word is consumed and thrown away (any value accepted, writer cannot reproduce it)")
+						}
+					})
+					walkBlock(g.ir(r).Body, nil, func(n Node, _ []Guard) {
+						call, ok := n.(*CallN)
+						if !ok || call.Fn == nil || !isBasictl(call.Fn.Pkg()) || call.Fn.Type().(*types.Signature).Recv() != nil {
+							return
+						}
+						_, known := tl1Prims[call.Fn.Name()]
+						known = known || call.Fn.Name() == "CheckLengthSanity" || call.Fn.Name() == "TL2Error"
+						c.Ob("tl1-reader-known-primitives", name+"."+role+"/"+call.Fn.Name(), known, posStr(g.co.Fset, call.Pos), "basictl."+call.Fn.Name()+" is in the checker's TL1 primitive table")
+					})
 					bad := g.bufferDiscipline(r)
 					c.Ob("tl1-reader-buffer-discipline", name+"."+role, len(bad) == 0, posStr(g.co.Fset, r.Decl.Pos()), strings.Join(bad, "; "))
 				}
